@@ -124,6 +124,24 @@ def programs(ctx):
             p.num(3, F(2), 'int')
             p.bin('Div', 6, 3, 5)                          # (2 units) / 2
         progs.append(p.d())
+    # allocation produces instances too: each portion a multiple of the quantum, less than one quantum from its share
+    for dm in MODES:
+        p = Prog('c05-%s-alloc' % dm)
+        p.setmode(dm)
+        for (t, u) in (('Money', 'Z2'), ('D', 'd'), ('Money', 'Z3')):
+            qu = units[u]['quantum']
+            cases = [(2553, [4, 6, 8, 8, 9]), (1000, [3, 2, 3]), (101, [2, 1, 1, 1, 1]), (-1503, [1, 2, 3, 5]),
+                     (777, [7, 1, 1, 1]), (2501, [4, 4, 3, 3, 3])]
+            cases += [(rnd.randint(1, 3000) * rnd.choice([1, 1, -1]), [rnd.randint(1, 9) for _ in range(rnd.choice([4, 5]))])
+                      for _ in range(60 if quick else 400)]
+            for (tot, rs) in cases:
+                p.make(1, t, qu * tot, u)
+                for i, r in enumerate(rs[:5]):
+                    p.num(2 + i, F(r), 'int')
+                regs = list(range(2, 2 + min(len(rs), 5)))
+                p.alloc(1, regs, True)
+                p.alloc(1, regs, False)
+        progs.append(p.d())
     # an amount with nine decimals divided by the quantum 1 (where the pinned decimalfp mis-divides, DESIGN 5.2)
     p = Prog('c05-dep')
     p.make(1, 'Money', F(41), 'Z0')
